@@ -9,6 +9,7 @@ position comes back as `{"int": n}` (the harness compares it with `float(n)`).
 Tokens on the pipe: `"w:<text>"`, `"i:<int>"`, `"v:<bits>"`. -/
 import PyttbModel.Core.Codec
 import PyttbModel.IO.Format
+import PyttbModel.IO.Digits
 open Lean Pyttb Pyttb.Codec Pyttb.Format
 namespace Pyttb.Driver
 
@@ -95,7 +96,36 @@ def ops16 : List (String × Op) := [
   ("c16.decode", fun j => do
     let f ← field j "file" >>= asList (asList asTok)
     let b ← field j "base" >>= asInt
-    .ok (exceptJ objJ (decode DV.bits DV.int b f)))
+    .ok (exceptJ objJ (decode DV.bits DV.int b f))),
+  -- digits: `bits` the pattern of the value written, (`neg`,`d`,`k`) the decimal printed, `pbits` the
+  -- pattern of the value read back, `P` the number of significant digits claimed:
+  -- the decompositions, and the model's verdicts "the decimal is a nearest P-digit decimal of the
+  -- value" and "the value read is a nearest finite binary64 value of the decimal"
+  ("c16.digits", fun j => do
+    let bits ← field j "bits" >>= asDV
+    let pbits ← field j "pbits" >>= asDV
+    let P ← field j "P" >>= asNat
+    let neg ← field j "neg" >>= asBool
+    let ds ← field j "d" >>= asStr
+    let k ← field j "k" >>= asInt
+    let d ← match ds.toNat? with
+      | some d => pure d
+      | none => throw s!"bad significand {ds}"
+    let y : Digits.Dec := ⟨neg, d, k⟩
+    let b64J (b : Option Digits.B64) : Json := match b with
+      | none => Json.null
+      | some b => Json.mkObj [("neg", Json.bool b.neg), ("m", Json.str (toString b.m)), ("e", toJson b.e),
+                              ("wf", Json.bool (decide b.WF))]
+    let x := Digits.B64.ofBits bits.toBits
+    let x' := Digits.B64.ofBits pbits.toBits
+    let nd := match x with
+      | none => Json.null
+      | some x => Json.bool (Digits.nearestDecB P x.toRat y)
+    let nb := match x' with
+      | none => Json.null
+      | some x' => Json.bool (Digits.nearestBinB y.toRat x')
+    .ok (Json.mkObj [("x", b64J x), ("xp", b64J x'), ("dec_wf", Json.bool (decide (y.WF P))),
+                     ("nearest_dec", nd), ("nearest_bin", nb)]))
 ]
 
 end Pyttb.Driver
